@@ -343,7 +343,7 @@ func (s *c12StorageRun) login() {
 	M := ms[s.rng.Intn(len(ms))]
 	q := &c12Req{Kind: "login", Op: logical.UpdateOperation, N: M.NS, M: M} // no marker: the token's lease id carries the login path
 	q.Data = map[string]any{"policies": []string{"c12-all"}, "ttl": "1h", "no_default_policy": true}
-	s.pickForm(q, M.NS, M.api()+"login/"+M.Tag+fmt.Sprint(s.rng.Intn(3)))
+	s.pickForm(q, M.NS, M.api()+"login/u"+fmt.Sprint(s.rng.Intn(3))) // no marker in the name: it becomes part of the token's lease id
 	s.do(q)
 	s.checkStorage(q)
 	if !q.ok() || q.resp == nil || q.resp.Auth == nil {
@@ -468,6 +468,11 @@ func (s *c12StorageRun) intoSealed() {
 			targets = append(targets, m)
 		}
 	}
+	for _, m := range s.mounts {
+		if !m.Dead && m.Shadow != nil && m.Shadow.effSealed() && !m.NS.effSealed() && m.Type == "verifrec" {
+			targets = append(targets, m) // its path resolves into the sealed namespace
+		}
+	}
 	if len(targets) == 0 {
 		return
 	}
@@ -529,6 +534,7 @@ func (s *c12StorageRun) endSeal() {
 	}
 	s.sealedNS = nil
 	s.sync()
+	s.shadowProbe()
 	for _, m := range s.mounts {
 		if m.NS != nil && m.NS.under(S) && !m.Dead {
 			if old := s.lastPrefix[m.Accessor]; old != "" && old != m.Prefix {
@@ -586,6 +592,11 @@ func (s *c12StorageRun) mutate() {
 			s.writeCanary(nm, s.rootTok)
 		}
 	case 2: // unmount
+		for _, m := range s.mounts {
+			if !m.Dead && m.Shadow != nil && !m.NS.effSealed() {
+				user = append(user, m)
+			}
+		}
 		if len(user) > 3 {
 			m := user[s.rng.Intn(len(user))]
 			if s.unmount(m) {
@@ -609,6 +620,16 @@ func (s *c12StorageRun) mutate() {
 		to := fmt.Sprintf("moved%d/", s.rng.Intn(4))
 		if s.rng.Chance(1, 3) {
 			to = c12MountPaths[s.rng.Intn(len(c12MountPaths))]
+		}
+		// the core resolves the target string namespace-first: it may land in a child namespace
+		real := s.root
+		for _, n := range s.nss {
+			if strings.HasPrefix(dst.Path+to, n.Path) && len(n.Path) > len(real.Path) {
+				real = n
+			}
+		}
+		if real != m.NS && m.Odd {
+			return // see keepMovable
 		}
 		if s.remount(m, dst, to) {
 			s.afterMut = 12
@@ -643,6 +664,15 @@ func (s *c12StorageRun) mutate() {
 		if s.sealNS(S) {
 			s.sealedNS = S
 			s.unsealAt = s.iter + 25 + s.rng.Intn(25)
+			if s.rng.Chance(1, 2) && !S.Parent.effSealed() {
+				// hostile topology: the parent mounts inside the path of the sealed namespace
+				s.r.Count("topology_conflict_attempts", 1)
+				p := S.Name + "/" + []string{"shadow/", "m/", "eng/"}[s.rng.Intn(3)]
+				if s.rng.Chance(1, 6) {
+					p = S.Name + "/"
+				}
+				s.mount(S.Parent, p, "verifrec", false)
+			}
 			for i := 0; i < 4; i++ {
 				s.intoSealed()
 			}
@@ -671,4 +701,49 @@ func (s *c12StorageRun) probeFresh(M *c12Mount) {
 			s.nontrivial(&c12Req{Kind: "fresh-probe", M: M, N: M.NS}, "path-reuse")
 		}
 	}
+}
+
+// shadowProbe: a mount of a parent namespace whose path lies inside the path of
+// a child namespace (accepted by the core only while that child was sealed).
+// Requests to the path resolve to the child namespace; if the parent's mount
+// serves a token of the child namespace, the child's tokens reach a mount (and
+// its storage) that belongs to the parent namespace.
+func (s *c12StorageRun) shadowProbe() {
+	for _, M := range s.mounts {
+		D := M.Shadow
+		if M.Dead || D == nil || D.effSealed() || M.NS.effSealed() || M.Type != "verifrec" {
+			continue
+		}
+		tok := s.all[D]
+		if tok == nil || tok.Dead {
+			continue
+		}
+		rel := strings.TrimPrefix(M.NS.Path+M.api(), D.Path)
+		q := &c12Req{Kind: "shadow-probe", Op: logical.UpdateOperation, Tok: tok, N: D, M: M, Marker: M.Tag, RawCall: "put", RawKey: M.Tag + "/by-child", KeyKind: "plain",
+			Form: "header", Header: D.Path, Path: rel + "raw", Data: map[string]any{"call": "put", "key": M.Tag + "/by-child", "value": "x"}}
+		s.do(q)
+		s.r.Count("shadow_mount_probes", 1)
+		s.checkStorage(q)
+		handled, at := q.handled()
+		if handled && at == M.NS.Path+M.api() && !M.shadowReported {
+			M.shadowReported = true
+			s.violate("C12-mount-inside-sealed-namespace-path-served-to-child-token",
+				fmt.Sprintf("mount %s belongs to namespace %q (storage %q) but was accepted at a path inside namespace %q while that namespace was sealed; after unsealing, token %s of namespace %q (policy path \"*\" of %q only) was served %s %q (header %q) by it and wrote into its storage",
+					M, M.NS.Path, M.Prefix, D.Path, tok.Name, D.Path, D.Path, q.Op, q.Path, q.Header),
+				map[string]any{"request": q, "mount_namespace": M.NS.Path, "request_namespace": D.Path, "physical_ops": c12Events(q.events)})
+		} else if !handled {
+			s.r.Count("shadow_mount_probes_refused", 1)
+		}
+	}
+}
+
+func c12Events(evs []kit.Event) []string {
+	var out []string
+	for i, e := range evs {
+		if i >= 40 {
+			break
+		}
+		out = append(out, e.String())
+	}
+	return out
 }
